@@ -585,7 +585,7 @@ func opStage(which, have, el string) (string, string) {
 			return "hang", "hang-stage: stage did not finish"
 		}
 	}
-	if have == "0" {
+	if have == "0" && !castErr {
 		return "dropped", ""
 	}
 	if castErr {
